@@ -28,14 +28,16 @@
 (*   StaleAfterShow  toggle-preview (show) enqueues from the action itself without telling the render loop which      *)
 (*                   focus it previewed; the render loop later finds "focus unchanged" (against what IT recorded      *)
 (*                   while the window was hidden) and does not refresh: move away, show, move back (found by TLC      *)
-(*                   with 4 user actions, reproduced on the real binary with `up+toggle-preview+down`)                *)
+(*                   with 4 user actions, reproduced on the real binary with `up+toggle-preview+down`; finding F18,  *)
+(*                   fixed in /repo by bumping t.version in that branch: ShowBumpsVersion = TRUE)                    *)
 (* The properties are proved on the behaviours in which no deviation fired (dev = {}); MC_Preview_dev.cfg checks the  *)
 (* strict versions and keeps TLC's counterexamples.                                                                   *)
 EXTENDS Integers, Sequences, FiniteSets, TLC
 
 CONSTANTS MaxUI,          \* bound on user actions
           Kinds,          \* what a preview command may be: subset of {"finite", "endless"}
-          TemplateHasQ    \* the preview template contains {q} (query edits then refresh the preview)
+          TemplateHasQ,   \* the preview template contains {q} (query edits then refresh the preview)
+          ShowBumpsVersion \* toggle-preview bumps t.version (fix 525f2ed for finding F18); FALSE = the code before the fix
 
 None == [none |-> TRUE]
 
@@ -99,9 +101,10 @@ Toggle == /\ CanAct /\ sel' = 1 - sel /\ tver' = tver + 1 /\ dirty' = TRUE /\ ac
                          alive, lastStarted, lastEnq, dev>>
 (* toggle-preview: hiding cancels the running command; showing cancels and enqueues from the action itself *)
 TogglePreview == /\ CanAct /\ visible' = ~visible /\ acts' = acts + 1
+                 /\ dirty' = TRUE /\ tver' = (IF ShowBumpsVersion THEN tver + 1 ELSE tver)      \* updatePreviewWindow: reqList
                  /\ TrySend(FALSE)
                  /\ IF visible THEN UNCHANGED <<uipc, ureq, lastEnq>> ELSE (uipc' = "set" /\ ureq' = CurReq /\ lastEnq' = CurReq)
-                 /\ UNCHANGED <<focus, q, sel, tver, rendVars, pbox, pquit, pvVars, ckind, cout, rendered, fin, dbox, shown, endVars,
+                 /\ UNCHANGED <<focus, q, sel, rfocus, rver, pbox, pquit, pvVars, ckind, cout, rendered, fin, dbox, shown, endVars,
                                 lastStarted>>
 (* any way of leaving (accept, abort, SIGTERM): exit() sets reqQuit on the previewBox, then EvtQuit is set *)
 Exit == /\ CanAct /\ acts' = acts + 1
@@ -224,6 +227,7 @@ ConvergenceStrict == Quiescent => CaughtUp                    \* violated: LostC
 (* the same with exactly one kind of deviation admitted: TLC's counterexamples show what each one leads to *)
 ConvergenceLostCancel == (Quiescent /\ ~procExited /\ dev \subseteq {"LostCancel"}) => CaughtUp      \* violated (F6, stale preview)
 ConvergenceStaleAfterShow == (Quiescent /\ ~procExited /\ dev \subseteq {"StaleAfterShow"}) => CaughtUp  \* violated (MaxUI >= 4)
+ShowFixed == ShowBumpsVersion => "StaleAfterShow" \notin dev          \* with the fix the deviation cannot happen at all
 ExitClean == (procExited /\ dev = {}) => alive = {}
 ExitCleanLostKill == (procExited /\ dev \subseteq {"LostKillAtExit"}) => (alive = {} \/ ckind = "finite")   \* violated (F6, survivor)
 ExitCleanStrict == procExited => (alive = {} \/ ckind = "finite")     \* violated: LostKillAtExit / ExitBeforeKill (finding F6)
